@@ -102,6 +102,37 @@ def mentions(e, bb):
     return any(x[0] == "call" and len(x) > 3 and x[3] == bb for x in walk(e))
 
 
+def _whole_frame_origin(facts, b, o, depth=0):
+    """the value is the output of a whole-frame producer (Message::to_vec / into_wire_bytes / frame_outbound), possibly handed
+    down through a parameter: then every caller must pass such a value"""
+    if o.kind == "call":
+        return callee_matches(o.info["callee"], "message::Message::to_vec", "message::Message::into_wire_bytes", "websocket_server::frame_outbound")
+    if o.kind != "arg" or depth > 2:
+        return False
+    owner, k = b.path, o.key
+    if b.kind == "coroutine" and b.path.endswith("::{closure#0}") and o.key == 1 and o.path:
+        owner = b.path[:-len("::{closure#0}")]
+        ob = facts.bodies.get(owner)
+        if ob is None:
+            return False
+        ks = [a for a in range(1, ob.argc + 1) if ob.debug_name(a) == o.path[0]]
+        if len(ks) != 1 or len(o.path) != 1:
+            return False
+        k = ks[0]
+    elif o.path:
+        return False
+    callers = facts.calls_to(owner)
+    if not callers:
+        return False
+    for cb, ci, ct in callers:
+        if k - 1 >= len(ct["args"]):
+            return False
+        os_ = trace_op(cb, ct["args"][k - 1])
+        if not os_ or not all(_whole_frame_origin(facts, cb, x, depth + 1) for x in os_):
+            return False
+    return True
+
+
 def result_switches(b, sym, facts, wbb):
     """switch blocks that test (the discriminant of) a value derived from the call in block wbb; returns
     list of (switch_bb, success_targets, failure_targets)."""
@@ -464,8 +495,7 @@ def run(facts, R):
                 if rv.get("agg") == "adt" and rv["adt"] == WSMSG and rv["variant"] == "Binary":
                     n += 1
                     origs = trace_op(b, rv["ops"][0])
-                    ok = bool(origs) and all(o.kind == "call" and callee_matches(o.info["callee"], "message::Message::to_vec", "message::Message::into_wire_bytes",
-                                                                                 "websocket_server::frame_outbound") for o in origs)
+                    ok = bool(origs) and all(_whole_frame_origin(facts, b, o) for o in origs)
                     R.check(ok, "one-message-per-frame", b.path, "Binary payload is a whole frame",
                             "a Binary message is built from %s, not from a whole-frame producer" % origs, s.get("span"), str(origs))
         R.floor("one-message-per-frame", n, 4, "Binary constructions")
